@@ -178,13 +178,17 @@ func (l *Linter) lintDirectorProperty(decl *ast.DirectorDeclaration, ctx *contex
 						l.Error(InvalidType(v.Key.GetMeta(), v.Key.Value, vv, types.IDType).Match(dps.Rule))
 						continue
 					}
-					if _, ok := ctx.Backends[ident.Value]; !ok {
+					if b, ok := ctx.Backends[ident.Value]; !ok {
 						err := &LintError{
 							Severity: ERROR,
 							Token:    v.Token,
 							Message:  fmt.Sprintf("Backend %s is not declared", ident.Value),
 						}
 						l.Error(err.Match(BACKEND_NOTFOUND))
+					} else {
+						// A member of a director is used, also when it is declared after the director
+						// (then it was not registered yet when the director was added to the context)
+						b.IsUsed = true
 					}
 				} else {
 					val := l.lint(v.Value, ctx)
